@@ -93,6 +93,7 @@ class Interp:
         self.cfgs = {}
         self.loopinfo = {}
         self.obligations = []      # dict(site, kind, ok, detail, ctx)
+        self.entered = set()       # names of the bodies interpreted (C01 R01.6: completeness of the obligation inventory)
         self.warnings = []         # unmodelled callees etc.
         self.calllog = []          # (callee, args, result) for watched callees
         self.const_cells = set()
@@ -936,16 +937,34 @@ class Interp:
             return TupleV(())
         return OpaqueV(ty, ("const", c.get("opaque")))
 
+    def _materialise(self, state, v):
+        """give the references stored inside a structured constant their (immutable) cells"""
+        if not _has_cref(v):
+            return v
+        if isinstance(v, _CRef):
+            cid = self.new_cell(state, self._materialise(state, v.v))
+            self.const_cells.add(cid)
+            return RefV(cid)
+        if isinstance(v, TupleV):
+            return TupleV([self._materialise(state, x) for x in v.items])
+        if isinstance(v, VecV):
+            return VecV([self._materialise(state, x) for x in v.elems])
+        if isinstance(v, StructV):
+            return StructV(v.adt, {k: self._materialise(state, x) for k, x in v.fields.items()})
+        if isinstance(v, EnumV):
+            return EnumV(v.adt, {n: (tuple(self._materialise(state, x) for x in pl), g) for n, (pl, g) in v.variants.items()})
+        return v
+
     def operand(self, state, fid, op):
         if "const" in op:
             v = self.const(op["const"])
             if isinstance(v, tuple) and v[0] == "promoted":
                 return self.eval_promoted(state, v[1], v[2])
             if isinstance(v, tuple) and v[0] == "constref":
-                cid = self.new_cell(state, v[1])
+                cid = self.new_cell(state, self._materialise(state, v[1]))
                 self.const_cells.add(cid)          # immutable data: survives joins even if only one side created it
                 return RefV(cid)
-            return v
+            return self._materialise(state, v)
         pl = op.get("copy") or op.get("move")
         if pl is None:
             return Top(why="operand %s" % list(op))
@@ -1223,6 +1242,7 @@ class Interp:
         if self.depth > 60:
             self.depth -= 1
             raise Broken("E2: call depth exceeded in %s" % body.name)
+        self.entered.add(body.name)
         cfg = self.cfg(body)
         loops, rpo, inloops = self.loopinfo[body.name]
         fid = next(self._frame)
@@ -1836,6 +1856,28 @@ def _norm_guard(bit, val):
     return (bit, val)
 
 
+class _CRef:
+    """placeholder for a reference stored inside a structured constant"""
+    __slots__ = ("v",)
+
+    def __init__(self, v):
+        self.v = v
+
+
+def _has_cref(v):
+    if isinstance(v, _CRef):
+        return True
+    if isinstance(v, TupleV):
+        return any(_has_cref(x) for x in v.items)
+    if isinstance(v, VecV):
+        return v.elems is not None and any(_has_cref(x) for x in v.elems)
+    if isinstance(v, StructV):
+        return any(_has_cref(x) for x in v.fields.values())
+    if isinstance(v, EnumV):
+        return any(_has_cref(x) for pl, _ in v.variants.values() for x in pl)
+    return False
+
+
 def _structured_const(j):
     """value of a structured constant dumped by the driver (arrays / tuples of ints, bools, chars, &str)"""
     if "int" in j:
@@ -1853,6 +1895,11 @@ def _structured_const(j):
     if "arr" in j:
         items = [_structured_const(x) for x in j["arr"]]
         return None if any(x is None for x in items) else VecV(items)
+    if "ref_arr" in j:
+        # a `&[T]` stored inside the constant (a table of tables): the referent gets its own immutable cell when the constant
+        # is materialised (Interp._materialise)
+        items = [_structured_const(x) for x in j["ref_arr"]]
+        return None if any(x is None for x in items) else _CRef(VecV(items))
     if "enum" in j:
         fs = [_structured_const(f) for f in j.get("fields", [])]
         if any(x is None for x in fs):
